@@ -10,6 +10,8 @@ import (
 
 	"verif/engine/cli"
 	"verif/engine/hist"
+	"verif/engine/sched"
+	"verif/vrt"
 )
 
 type opKind int
@@ -322,6 +324,78 @@ func systems(c *cli.Ctx) []*hist.System {
 	return out
 }
 
+// concurrent callers of the thread-safe flavour: every method must take effect atomically, so whatever the
+// interleaving the list stays a well-formed ring holding exactly the elements a sequential execution would leave
+func concurrentScenarios() []*sched.Scenario {
+	wellFormed := func(l ds.List[int], want map[int]int) {
+		var fwd, bwd []int
+		n := 0
+		for e := l.Front(); e != nil && n < 20; e = e.Next() {
+			fwd = append(fwd, e.Value())
+			n++
+		}
+		n = 0
+		for e := l.Back(); e != nil && n < 20; e = e.Prev() {
+			bwd = append(bwd, e.Value())
+			n++
+		}
+		vrt.Observe("final", fmt.Sprint(fwd))
+		got := map[int]int{}
+		for _, v := range fwd {
+			got[v]++
+		}
+		ok := len(fwd) == len(bwd) && len(fwd) == l.Len() && fmt.Sprint(got) == fmt.Sprint(want)
+		for i := range fwd {
+			if ok && bwd[len(bwd)-1-i] != fwd[i] {
+				ok = false
+			}
+		}
+		if !ok {
+			vrt.Fail("list-corrupted", "after concurrent calls the list reads %v forwards and %v backwards with Len %d; expected the elements %v, each direction the reverse of the other", fwd, bwd, l.Len(), want)
+		}
+	}
+	mk := func() (ds.List[int], []ds.ListElement[int]) {
+		l := ds.NewList[int]()
+		var hs []ds.ListElement[int]
+		for i := 1; i <= 4; i++ {
+			hs = append(hs, l.PushBack(i))
+		}
+		return l, hs
+	}
+	all := map[int]int{1: 1, 2: 1, 3: 1, 4: 1}
+	return []*sched.Scenario{
+		{Name: "threadsafe/movetofront-vs-movetoback", Run: func() {
+			l, hs := mk()
+			vrt.Par(func() { l.MoveToFront(hs[2]) }, func() { l.MoveToBack(hs[1]) })
+			wellFormed(l, all)
+		}},
+		{Name: "threadsafe/2xmovetofront-vs-traversal", UnboundedThoroughOnly: true, Run: func() {
+			l, hs := mk()
+			vrt.Par(
+				func() { l.MoveToFront(hs[3]) },
+				func() { l.MoveToFront(hs[2]) },
+				func() {
+					n := 0
+					for e := l.Front(); e != nil && n < 20; e = e.Next() {
+						n++
+					}
+				},
+			)
+			wellFormed(l, all)
+		}},
+		{Name: "threadsafe/movebefore-vs-remove-vs-pushfront", UnboundedThoroughOnly: true, Run: func() {
+			l, hs := mk()
+			vrt.Par(func() { l.MoveBefore(hs[3], hs[0]) }, func() { l.Remove(hs[1]) }, func() { l.PushFront(5) })
+			wellFormed(l, map[int]int{1: 1, 3: 1, 4: 1, 5: 1})
+		}},
+		{Name: "threadsafe/insertafter-vs-moveafter", Run: func() {
+			l, hs := mk()
+			vrt.Par(func() { l.InsertAfter(6, hs[1]) }, func() { l.MoveAfter(hs[0], hs[2]) })
+			wellFormed(l, map[int]int{1: 1, 2: 1, 3: 1, 4: 1, 6: 1})
+		}},
+	}
+}
+
 func main() {
 	var parts []*cli.Part
 	for i, name := range []string{"list/lockfree", "list-nomerge/lockfree", "list/threadsafe", "list-nomerge/threadsafe"} {
@@ -335,12 +409,15 @@ func main() {
 		}
 	}
 	cli.Main(&cli.Property{
-		ID: "C10", Level: "model_checking", Parts: parts, QuickSecs: 50, ThoroughSecs: 600,
+		ID: "C10", Level: "model_checking", Parts: parts, Scenarios: concurrentScenarios(),
+		QuickBound: 2, ThoroughBound: 3, QuickUnbounded: true, ThoroughUnbounded: true, Cache: true,
+		RaceHB:    &cli.RaceHB{QuickBound: 1, ThoroughBound: 2},
+		QuickSecs: 50, ThoroughSecs: 600,
 		Rule: "explicit-state search over all histories of List operations with all handle arguments (live, removed, foreign) against container/list driven by the same operations; states merged on the canonical model state (fixpoint under the handle bound) plus a depth-bounded search without merging; distinct = distinct states / histories",
 		Assumptions: []string{
 			"container/list is the reference; handles created before an Init of their list are retired because container/list itself is undefined for them",
 			"state merging on the model state is sound because every step compares the complete observable state of the real lists and all handles with the model",
 		},
-		NotReached: []string{"lists with more than 5 handles", "concurrent use of the thread-safe flavour (not part of the statement)"},
+		NotReached: []string{"lists with more than 5 handles", "concurrent use of the thread-safe flavour beyond four two- and three-thread scenarios (concurrency is not part of the statement)"},
 	})
 }
